@@ -29,6 +29,7 @@ import partition as txpart
 import builders_tree as txbuild
 import rootcover as txroot
 import uniquerows as txuniq
+import complexguard as txcplx
 
 TOL = 1e-9
 SIZE1 = [False]     # set by the probe below: may the generators use one-function (nbas == 1) real basis sets?
@@ -395,6 +396,44 @@ def gen_alphabet(rng, aid, nterms, algo):
     return {"id": aid, "basis": basis, "tree": tree, "algo": algo, "terms": terms, "tree_name": name}
 
 
+def gen_complex(rng, cid):
+    """real-looking lists whose LOCAL factors are complex: sigma_y pairs, p p, x p, on several groupings of the same sets"""
+    n = rng.randint(3, 5)
+    basis = []
+    for d in range(n):
+        basis.append(["spin", "c%d" % d, 2] if rng.random() < 0.6 else ["sho", "c%d" % d, rng.choice([2, 3]), rng.choice([0.5, 1.0, 2.0]), 0.0])
+    cplx = {"spin": ["sigma_y"], "sho": ["p"]}
+    real = {"spin": ["sigma_x", "sigma_z"], "sho": ["x", "x^2", "p^2"]}
+
+    def fac():
+        return {"num": rng.choice([1, 3, 5, -1, -3]), "exp": rng.choice([0, 1, 2, 3])}
+    terms = []
+    for _ in range(rng.randint(1, 3)):                         # the complex-factor terms: an even number of complex factors
+        a, b = rng.sample(basis, 2)
+        ops = [[rng.choice(cplx[a[0]]), a[1]], [rng.choice(cplx[b[0]]), b[1]]]
+        if rng.random() < 0.4:
+            c = rng.choice(basis)
+            if c is not a and c is not b:
+                ops.append([rng.choice(real[c[0]]), c[1]])
+        t = {"ops": ops}
+        t.update(fac())
+        terms.append(t)
+    for _ in range(rng.randint(1, 4)):                         # ordinary real terms
+        sup = rng.sample(basis, rng.randint(1, min(3, n)))
+        t = {"ops": [[rng.choice(real[b[0]]), b[1]] for b in sup]}
+        t.update(fac())
+        terms.append(t)
+    rng.shuffle(terms)
+    idx = list(range(n))
+    trees = [{"builder": "linear"}, {"builder": "binary"}, {"builder": "mctdh", "order": 2, "contract": False},
+             {"builder": "mctdh", "order": 3, "contract": True}, {"builder": "t3ns"},
+             {"nested": {"b": [-1], "ch": [{"b": idx, "ch": []}]}},                           # everything on one node
+             {"nested": {"b": idx[:2], "ch": [{"b": idx[2:], "ch": []}]}}]
+    rng.shuffle(idx)
+    trees.append({"nested": {"b": [-1], "ch": [{"b": idx[:2], "ch": []}, {"b": idx[2:], "ch": []}]}})
+    return {"id": cid, "basis": basis, "terms": terms, "trees": trees, "algos": [rng.choice(["Hopcroft-Karp", "Hungarian", "qr"]) for _ in trees]}
+
+
 def term_coeffs(terms):
     """the term list as a map  frozenset{(dof, symbol-string-on-that-dof)} -> Fraction"""
     out = {}
@@ -459,7 +498,7 @@ def run(ctx):
         broken.append("translator tx/partition.py")
         detail["translator"] = repr(e)
         ctx.obligations.append({"name": "Gen/Partition.v (translator tx/partition.py)", "file": "Gen/Partition.v", "ok": False, "assumptions": None})
-    for mod, rel in ((txbuild, "Gen/TreeBuilders.v"), (txroot, "Gen/RootCover.v"), (txuniq, "Gen/UniqueRows.v")):
+    for mod, rel in ((txbuild, "Gen/TreeBuilders.v"), (txroot, "Gen/RootCover.v"), (txuniq, "Gen/UniqueRows.v"), (txcplx, "Gen/ComplexGuard.v")):
         try:
             text2, info2 = mod.main(common.REPO)
             ctx.regen(rel, text2)
@@ -477,7 +516,7 @@ def run(ctx):
     else:
         ctx.obligations.append({"name": "C02 (build of Gen/Partition.v, Model/TreeTopo.v, Model/Ttno.v and their proofs)", "file": "Proofs/TtnoProofs.v", "ok": False, "assumptions": None})
     if tx_ok:
-        for rel in ("Gen/Partition.v", "Gen/TreeBuilders.v", "Gen/RootCover.v", "Gen/UniqueRows.v"):
+        for rel in ("Gen/Partition.v", "Gen/TreeBuilders.v", "Gen/RootCover.v", "Gen/UniqueRows.v", "Gen/ComplexGuard.v"):
             ctx.obligations.append({"name": rel + " regenerated from the current source and accepted by the proofs", "file": rel, "ok": bool(ok_build), "assumptions": []})
     if not (ok_build and ok_props):
         broken.append("theorem(s): " + ", ".join(o["name"] for o in ctx.obligations if not o["ok"]))
@@ -645,17 +684,26 @@ def run(ctx):
         alphas.append(gen_alphabet(rng, i, rng.randint(450, 700), ["Hopcroft-Karp", "Hungarian", "qr"][i % 3] if i % 5 else "Hopcroft-Karp"))
     if not quick:      # more terms than a 16-bit counter holds, on a tree
         alphas.append(gen_alphabet(rng, len(alphas) + 1, 66000, "Hopcroft-Karp"))
+    complexes = [gen_complex(rng, i) for i in range(16 if quick else 120)]
     nap = 6 if quick else 12
-    apay = [{"alphabets": alphas[i::nap]} for i in range(nap) if alphas[i::nap]]
+    apay = [{"alphabets": alphas[i::nap], "complexes": complexes[i::nap]} for i in range(nap) if alphas[i::nap] or complexes[i::nap]]
     hres = impl_pool(ctx, "c02_history.py", [{"sequences": seqs[i::nhp], "scales": scales[i::nhp]} for i in range(nhp)] + apay, timeout=1500)
     ares = hres[nhp:]
     hres = hres[:nhp]
     alpha_bad = []
+    complex_bad = []
     alpha_by_id = {a["id"]: a for a in alphas}
     for (rc_, res_, out_), pl in zip(ares, apay):
         if res_ is None:
             alpha_bad.append({"what": "large-alphabet script failed", "out": (out_ or "")[-1200:], "case": pl["alphabets"][0]})
             continue
+        for q in res_.get("complexes", []):
+            ev += q["n"]
+            bump("complex:lists")
+            for v_ in q.get("verdicts", []):
+                bump("complex:" + ("refused" if v_.startswith("refused") else "accepted and exact"))
+            if q["fails"]:
+                complex_bad.append({"what": "complex local factors", "fails": q["fails"][:3], "case": complexes[q["id"]]})
         for q in res_.get("alphabets", []):
             ev += 1
             bump("alphabet:cases")
@@ -870,6 +918,12 @@ def run(ctx):
                "sys.exit(1 if bad else 0)\n")
         ctx.violation("ttno-history", "dense oracle (history stream): a TTNO built after other constructions in the same process differs from the dense sum of krons of its own local matrices",
                       {"failures": [{k: v for k, v in b.items()} for b in history_bad[:4]]}, found=True, repro=rep)
+    if complex_bad:
+        src = open(os.path.join(common.VERIF, "harness", "impl", "c02_history.py")).read()
+        rep = ("C02_INLINE = True\n" + src + "\nres = run_payload(json.loads(" + repr(json.dumps({"complexes": [complex_bad[0]["case"]]})) + "))\n"
+               "print(res['complexes'][0]['verdicts'])\nbad = [f for q in res['complexes'] for f in q['fails']]\nprint(bad[:3])\nsys.exit(1 if bad else 0)\n")
+        ctx.violation("ttno-complex-local", "dense oracle (complex-local-factor stream): a term list with complex local matrices (sigma_y, p) was accepted and gives a TTNO that differs from the dense sum of krons (it must be refused or exact, independent of the tree)",
+                      {"failures": complex_bad[:4]}, found=True, repro=rep)
     if alpha_bad:
         src = open(os.path.join(common.VERIF, "harness", "impl", "c02_history.py")).read()
         ac = alpha_bad[0]["case"]
